@@ -292,16 +292,128 @@ def validate_conn(chk, out_path, wd, label, shard=300, ppt=60, rcm=2):
     return all_outs, pflags
 
 
+STOP_RE = re.compile(r'STOPPED-AT", (\d+)')
+
+
+def validate_stream(chk, out_path, wd, label, shard=150, ppt=60, rcm=2, demo=True):
+    """impl -> spec for the packet-level I-spec: TLC checks that every trace is a behaviour of ResetStream with the real constants
+    (TraceStream: attempt budget, throttle law, deadlines, connection discipline, bound to the logged connection ids and virtual
+    timestamps).  A trace that is not accepted is MODEL-DRIFT of layer L4-stream, never a violation: the properties are judged by
+    the P-spec acceptors (TraceConn).  Returns (accepted, rejected)."""
+    lines = open(out_path).read().splitlines()
+
+    def flat_of(objs, first, path):
+        idx = []   # (first event line (1-based) of scenario, scenario number)
+        n = 0
+        with open(path, "w") as w:
+            for i, o in enumerate(objs):
+                full = dict(DEFAULT_CFG)
+                full.update(o.get("config") or {})
+                c = {"timeout": full["read_card_timeout"], "ppt": ppt, "rcm": rcm, "serial": [ord(ch) for ch in full["serial"]]}
+                w.write(json.dumps({"e": "reset", "sc": first + i + 1, "cfg": c}) + "\n")
+                n += 1
+                idx.append((n, first + i))
+                for e in o["trace"]:
+                    e = {k: v for k, v in e.items() if k not in ("plan", "fields", "token", "amount", "val", "err")}
+                    if e.get("e") in ("ledger", "plan"):
+                        continue
+                    w.write(json.dumps(no_null(e)) + "\n")
+                    n += 1
+        return idx, n
+
+    def one(k):
+        objs = [json.loads(x) for x in lines[k:k + shard]]
+        rejected, states, gen, off = [], 0, 0, 0
+        while off < len(objs):
+            flat = os.path.join(wd, "%s.spart%d_%d.flat" % (label, k, off))
+            idx, n = flat_of(objs[off:], k + off, flat)
+            r = vlib.tlc("client/TraceStream.tla", workers=1, xmx="4g", depth_first=True,
+                         env={"CLIENT_TRACE": flat, "PPT_MS": str(ppt * 1000)}, tag="%ss%d_%d" % (label, k, off), timeout=3000)
+            states += r.distinct
+            gen += r.generated
+            if r.ok:
+                os.remove(flat)
+                break
+            m = STOP_RE.search(r.out)
+            if r.violated != "postcondition" or not m:
+                raise vlib.ToolError("TraceStream failed on %s:\n%s" % (flat, (r.error_text or r.out)[-3000:]))
+            at = int(m.group(1))
+            # the scenario that contains the first event no branch could explain
+            j = max(i for i, (ln, _) in enumerate(idx) if ln <= at)
+            ev = open(flat).read().splitlines()[at - 1] if at <= n else "<end>"
+            rejected.append((k + off + j, at - idx[j][0], ev[:300]))
+            os.remove(flat)
+            off += j + 1
+            if len(rejected) > 25:
+                break
+        return k, len(objs), rejected, states, gen
+    acc, rej = 0, []
+    for k, n, rejected, states, gen in vlib.parallel(one, list(range(0, len(lines), shard)), 12):
+        chk.cov["states"] += states
+        chk.cov["transitions"] += gen
+        acc += n - len(rejected)
+        rej.extend(rejected)
+    outs = None
+    for sci, evno, ev in sorted(rej)[:40]:
+        if outs is None:
+            outs = [json.loads(x) for x in lines]
+        o = outs[sci]
+        chk.drift("L4-stream", "trace not a behaviour of ResetStream at event %d" % evno,
+                  {"event": ev, "calls": [c["op"] for c in o.get("calls", [])], "tag": o.get("tag"), "plan": str(o.get("plan"))[:300]})
+    chk.cov["stream_traces"] = {"accepted_by_ResetStream": acc, "rejected": len(rej)}
+    if demo and lines:
+        # binding demonstration: one recorded timestamp of a close event moved by one millisecond must be rejected
+        o = None
+        for x in lines:
+            c = json.loads(x)
+            if any(e.get("e") in ("hang", "panic") for e in c["trace"]):
+                continue
+            incall, hit = False, None
+            for i, e in enumerate(c["trace"]):
+                if e.get("e") == "call":
+                    incall = True
+                elif e.get("e") == "ret":
+                    incall = False
+                elif e.get("e") == "close" and incall:
+                    hit = i
+                    break
+            if hit is not None:
+                c["trace"][hit]["t"] += 1
+                o = c
+                break
+        if o is not None:
+            flat = os.path.join(wd, label + ".sdemo.flat")
+            flat_of([o], 0, flat)
+            r = vlib.tlc("client/TraceStream.tla", workers=1, xmx="2g", depth_first=True, env={"CLIENT_TRACE": flat, "PPT_MS": str(ppt * 1000)},
+                         tag=label + "sdemo", timeout=600)
+            os.remove(flat)
+            chk.cov["stream_binding_demo"] = "a close event moved by 1 ms is " + ("rejected" if r.violated == "postcondition" else "NOT rejected")
+            if r.violated != "postcondition":
+                raise vlib.ToolError("binding demonstration failed: TraceStream accepted a corrupted trace")
+    return acc, len(rej)
+
+
 def model_check_stream(chk):
-    r = vlib.tlc("client/ResetStream.tla", cfg="ResetStream.cfg", workers=4, xmx="8g")
+    thorough = chk.tier == "thorough"
+    main, delay = ("ResetStream_thorough.cfg", "ResetStream_delay_thorough.cfg") if thorough else ("ResetStream.cfg", "ResetStream_delay.cfg")
+    r = vlib.tlc("client/ResetStream.tla", cfg=main, workers=vlib.NCPU if thorough else 8, xmx="12g", timeout=7000)
     vlib.tlc_must_pass(r, "ResetStream")
     if r.violated:
         raise vlib.ToolError("the reconnecting-stream specification violates %s" % r.violated)
-    chk.add_tlc("ResetStream: retry budget 3, every fault kind at every frame of connect / registration / identity check / command exchange, up to 4 "
-                "faults; invariants CommandsOnlyOnVetted, NoUseAfterTaint, OneLive, KeepOnSuccess, Bounded; liveness Returns under weak fairness", r)
+    chk.add_tlc("ResetStream (%s): 2 public calls x up to 2 exchanges each, retry budget 3, every fault kind at every frame of connect / registration / "
+                "identity check / command exchange, up to %d faults, callers that leave an exchange unfinished; invariants CommandsOnlyOnVetted, "
+                "NoUseAfterTaint, OneLive, KeepOnSuccess, Bounded, AttemptsBounded; liveness Returns under weak fairness" % (main, 4 if thorough else 3), r)
+    rd = vlib.tlc("client/ResetStream.tla", cfg=delay, workers=vlib.NCPU if thorough else 8, xmx="12g", timeout=7000)
+    vlib.tlc_must_pass(rd, "ResetStream (delays)")
+    if rd.violated:
+        raise vlib.ToolError("the reconnecting-stream specification with delayed replies violates %s" % rd.violated)
+    chk.add_tlc("ResetStream (%s): replies delayed to just before the deadline at every frame (handshake: the deadline of the whole connect phase); "
+                "same invariants and liveness" % delay, rd)
     r2 = vlib.tlc("client/ResetStream.tla", cfg="ResetStream_unguarded.cfg", workers=4, xmx="8g")
     chk.cov["model_runs"].append({"model": "ResetStream with an unguarded connect phase (the code before the repair of D7)",
                                    "liveness_Returns": "violated as expected" if r2.violated == "temporal" else "NOT violated"})
+    if r2.violated != "temporal":
+        raise vlib.ToolError("the unguarded variant of ResetStream does not violate Returns: the liveness check is vacuous")
     return r
 
 
